@@ -98,11 +98,14 @@ var sliceHelpers = []sliceHelper{
 var mapHelpers = []mapHelper{
 	{"Keys", 0, func(m map[int]int) ([]map[int]int, [][]int) { return nil, [][]int{asc(gogu.Keys(m))} }},
 	{"Values", 0, func(m map[int]int) ([]map[int]int, [][]int) { return nil, [][]int{asc(gogu.Values(m))} }},
-	{"Pick", 0, func(m map[int]int) ([]map[int]int, [][]int) { r, _ := gogu.Pick(m, 1, 3); return []map[int]int{r}, nil }},
+	{"Pick", 0, func(m map[int]int) ([]map[int]int, [][]int) {
+		r, _ := gogu.Pick(m, frameKeys...)
+		return []map[int]int{r}, nil
+	}},
 	{"PickBy", 0, func(m map[int]int) ([]map[int]int, [][]int) {
 		return []map[int]int{gogu.PickBy(m, func(k, v int) bool { return v > 1 })}, nil
 	}},
-	{"Omit", 1, func(m map[int]int) ([]map[int]int, [][]int) { return []map[int]int{gogu.Omit(m, 1)}, nil }},
+	{"Omit", 1, func(m map[int]int) ([]map[int]int, [][]int) { return []map[int]int{gogu.Omit(m, frameKeys...)}, nil }},
 	{"OmitBy", 1, func(m map[int]int) ([]map[int]int, [][]int) {
 		return []map[int]int{gogu.OmitBy(m, func(k, v int) bool { return v > 2 })}, nil
 	}},
@@ -139,7 +142,12 @@ var mapHelpers = []mapHelper{
 	}},
 }
 
+// frameKeys is the caller's key list handed to the variadic map helpers with a spread call
+// (Pick(m, ks...), Omit(m, ks...)): a view of length 3 onto a backing array with spare capacity.
+var frameKeys []int
+
 type frameSys struct {
+	keys   []int // backing array of frameKeys
 	kind   string
 	bufs   [][]int // full backing arrays (len == cap)
 	lens   []int
@@ -187,6 +195,7 @@ func (s *frameSys) Do(o tt.Op) tt.Res {
 		s.kind = o.F
 		if s.kind == "map" {
 			s.m = mapOf(o.L[0])
+			s.keys = cp(o.L[1])
 			return tt.Res{Ok: true}
 		}
 		for _, l := range o.L {
@@ -206,8 +215,9 @@ func (s *frameSys) Do(o tt.Op) tt.Res {
 					h = &mapHelpers[i]
 				}
 			}
+			frameKeys = s.keys[:3]
 			maps, slices := h.call(s.m)
-			after := [][]int{flatMap(s.m)}
+			after := [][]int{flatMap(s.m), cp(s.keys)}
 			rr := s.reread()
 			for _, r := range maps {
 				a := 0
@@ -280,7 +290,7 @@ func frameExplorer(depth int) *tt.Explorer {
 					}
 				}
 				for _, m := range mapsIn {
-					r = append(r, tt.Op{N: "bufs", F: "map", A: []int{len(m)}, L: [][]int{cp(m)}})
+					r = append(r, tt.Op{N: "bufs", F: "map", A: []int{len(m), 3}, L: [][]int{cp(m), {1, 3, 2, -9, -9}}})
 				}
 				return r
 			}
